@@ -11,11 +11,16 @@ let () =
     match a with
     | key :: rest ->
         let reg = registry_of (Sexp.parse (String.concat " " rest)) in
-        Hashtbl.replace registries key reg; [bool_s (wf_registry reg)]
+        Hashtbl.replace registries key reg;
+        (* wf_registry; then how many expression roots the independent expression Spec reads, of how many *)
+        let (cov, tot) = indep_coverage reg in
+        [bool_s (wf_registry reg); n_s cov; n_s tot]
     | _ -> failwith "load_registry_spec");
   (* render_spec <key> <xTemplate> <fuel> <oblig: x,x,..|-> <ij sexp | none> ; <data sexp>
      -> <class[,msg]> <wf_registry #0/#1> <output hex> *)
-  register "render_spec" (fun a ->
+  (* render_spec: Spec/Cmd.v; render_spec_indep: Spec/CmdIndep.v (expressions by Spec/Expr.v) *)
+  List.iter (fun (opname, run) ->
+  register opname (fun a ->
     match a with
     | key :: tname :: fuel :: oblig :: rest ->
         let reg = Hashtbl.find registries key in
@@ -30,9 +35,10 @@ let () =
                   | _ -> failwith "render_spec: data must be a map") in
         let ob = if oblig = "-" then [] else List.map (fun h -> bstr_of_hex h) (String.split_on_char ',' oblig) in
         let cf = { c_reg = reg; c_ij = ij; c_oblig = ob; c_msgs = None } in
-        let r = render_spec cf (nat_of_int (int_field fuel)) (xs tname) dm (n_of_int 1000000) in
+        let r = run cf (nat_of_int (int_field fuel)) (xs tname) dm (n_of_int 1000000) in
         let cls = (match r.sr_outcome with
                    | Ok _ -> ["ok"] | Err m -> ["err"; hex_of_bstr m] | Crash m -> ["crash"; hex_of_bstr m]
                    | Diverge -> ["diverge"] | OutOfFuel -> ["fuel"] | OutOfModel -> ["outofmodel"]) in
         [String.concat "," cls; bool_s (wf_registry reg); hex_of_bstr r.sr_out]
-    | _ -> failwith "render_spec")
+    | _ -> failwith "render_spec"))
+  [("render_spec", render_spec); ("render_spec_indep", render_spec_indep)]
